@@ -362,6 +362,7 @@ def check_c17(v: Verdict, n_classes):
         if len(v.samples) < 3:
             v.samples.append(desc)
     inherit_battery(v, rng, max(4, n_classes // 3), hist)
+    pep696_battery(v, hist)
     bad = []
     shard = 300
     for k in range(0, len(cases), shard):
@@ -378,3 +379,72 @@ def check_c17(v: Verdict, n_classes):
     v.obligation("correspondence:GEN/C17 (annotation resolved by the generator = model resolve_field, per attribute)", not bad,
                  "" if not bad else f"{len(bad)} of {len(cases)} disagree, first: {meta[bad[0]]}")
     v.coverage["input_distribution"] = hist
+
+
+# ------------------------------------------------------------------------------------ PEP 696 TypeVar defaults
+
+PEP696_SRC = '''import dataclasses, attrs
+from typing import Any, Dict, Generic, List, Optional, TypedDict
+from typing_extensions import TypeVar
+@attrs.define
+class Inner:
+    a: int
+    b: str = "x"
+T = TypeVar("T")
+S = TypeVar("S")
+TD = TypeVar("TD", default={dflt})
+{deco}
+class G({bases}Generic[{params}]):
+{body}
+{deco}
+class Mono{td_base}:
+{mono_body}
+'''
+
+
+def pep696_battery(v: Verdict, hist):
+    """systematic: a generic attrs class / dataclass / TypedDict whose parameter list MIXES plain TypeVars and TypeVars with a
+    default (PEP 696), used WITHOUT type arguments: it must unstructure exactly like its monomorphised copy (defaulted parameters
+    replaced by their defaults, plain ones left to the runtime class of the value), and with explicit arguments like the copy
+    with those arguments -- for every position of the defaulted parameter in the list"""
+    import sys
+    import types as _types
+    from cattrs import Converter
+    n = 0
+    shapes = {"p": "{T}", "tag": "{TD}", "items": "List[{T}]", "m": "Dict[str, {TD}]", "o": "Optional[{T}]"}
+    for kind in ("attrs", "dataclass", "td"):
+        for dflt, dval in (("str", "'s'"), ("int", "5"), ("Inner", "Inner(9)")):
+            for params in ("T, TD", "T, S, TD"):
+                deco = {"attrs": "@attrs.define", "dataclass": "@dataclasses.dataclass", "td": ""}[kind]
+                body = "\n".join(f"    {nm}: " + sh.format(T="T", TD="TD") for nm, sh in shapes.items()) + ("\n    s: S" if "S" in params else "")
+                mono = "\n".join(f"    {nm}: " + sh.format(T="Any", TD=dflt) for nm, sh in shapes.items()) + ("\n    s: Any" if "S" in params else "")
+                src = PEP696_SRC.format(dflt=dflt, deco=deco, bases="TypedDict, " if kind == "td" else "", params=params, body=body, mono_body=mono,
+                                        td_base="(TypedDict)" if kind == "td" else "")
+                modname = f"verif_pep696_{kind}_{dflt}_{len(params)}"
+                mod = _types.ModuleType(modname)
+                sys.modules[modname] = mod
+                try:
+                    exec(compile(src, modname, "exec"), mod.__dict__)
+                    Inner = mod.Inner
+                    dv = eval(dval, mod.__dict__)
+                    vals = {"p": Inner(1), "tag": dv, "items": [Inner(2), Inner(3)], "m": {"k": dv}, "o": Inner(4)}
+                    if "S" in params:
+                        vals["s"] = Inner(5)
+                    mk = (lambda cl: dict(vals)) if kind == "td" else (lambda cl: cl(**vals))
+                    for dvmode in (True, False):
+                        conv = Converter(detailed_validation=dvmode)
+                        conv.register_unstructure_hook(int, lambda x: x + 1000)      # makes "the int hook ran" visible
+                        desc = {"lane": "GEN/C17 PEP 696 defaults", "kind": kind, "type_parameters": params, "default_of_TD": dflt, "detailed_validation": dvmode}
+                        for how in ("unstructure(x)", "unstructure(x, unstructure_as=G)"):
+                            if kind == "td" and how == "unstructure(x)":
+                                continue          # (a TypedDict instance is a plain dict: no class to dispatch on)
+                            n += 1
+                            v.count(repr((desc, how)), True)
+                            got = outcome(lambda: conv.unstructure(mk(mod.G)) if how == "unstructure(x)" else conv.unstructure(mk(mod.G), unstructure_as=mod.G))
+                            want = outcome(lambda: conv.unstructure(mk(mod.Mono), unstructure_as=mod.Mono))
+                            if got != want:
+                                v.violation("a generic class with defaulted type parameters, used without arguments, is not unstructured like its monomorphised copy",
+                                            {**desc, "call": how, "class_source": src, "got": repr(got)[:500], "monomorphised_copy": repr(want)[:500]})
+                finally:
+                    sys.modules.pop(modname, None)
+    hist["pep696_cases"] = n
